@@ -164,6 +164,10 @@ class Budgets(Facet):
                         if sig == state["last_sig"]:
                             raise StopSearch("cycle")
                         state["last_sig"] = sig
+                        if tracker.get_number_evaluations() != len(invoked):
+                            # the budget is judged on a counter that no longer equals the real number of
+                            # evaluations: the search may overshoot or never stop - no need to wait for it
+                            raise StopSearch("counter")
                     v = self.inner.is_done(tracker)
                     b = tracker.get_best_individual()
                     bv = None if b is None else b.get_fitness(tracker.problem).fitness_components[0]
@@ -199,7 +203,12 @@ class Budgets(Facet):
                     budget_obj=budget, step=step,
                 )
             except StopSearch as s:
-                if str(s) == "cycle":
+                if str(s) == "counter":
+                    rec.fail(
+                        f"C14/counter/{case['alg']}",
+                        f"at a budget check tracker.get_number_evaluations() = {w.last_algorithm.tracker.get_number_evaluations() if hasattr(w, 'last_algorithm') else '?'} but the fitness function had been invoked {len(invoked)} times; {desc}",
+                    )
+                elif str(s) == "cycle":
                     rec.fail(
                         f"C14/livelock/{case['alg']}",
                         f"two consecutive budget checks with identical evaluation count and RNG state ({state['last_sig'][0]} evaluations): the search can never finish; {desc}",
